@@ -416,10 +416,14 @@ class FiniteAutomaton:
         for final_state in self._final_states:
             fst.add_final_state(final_state.value)
         for s_from, symb_by, s_to in self._transition_function.get_edges():
-            fst.add_transition(s_from.value,
-                               symb_by.value,
-                               s_to.value,
-                               [symb_by.value])
+            if symb_by == Epsilon():
+                # An epsilon transition reads nothing and writes nothing
+                fst.add_transition(s_from.value, "epsilon", s_to.value, [])
+            else:
+                fst.add_transition(s_from.value,
+                                   symb_by.value,
+                                   s_to.value,
+                                   [symb_by.value])
         return fst
 
     def is_acyclic(self) -> bool:
